@@ -368,7 +368,7 @@ func c12Body(c *ev.Ctx) {
 		}
 		return m
 	}())
-	c.Set("exhaustive", done == len(runs))
+	c.Set("exhaustive", done >= len(runs) && len(c.CapsHit()) == 0)
 	c.Sample(runs[0])
 	c.Sample(runs[len(runs)/2])
 	c.Set("rule", "each evaluation = one compilation in a fresh process built with a patched runtime whose map-iteration start position is VERIF_MAPSEED; product of (mode, dims) x construction path {BuildR1CS*, Setup*, Import*Setup, CLI r1cs} x seed x GOMAXPROCS {1,2,16} (+ runtime's own randomness, + 3 repetitions in one process, + a sequence of different dimensions compiled in one process vs. fresh processes); oracle: one SHA-256 of ConstraintSystem.WriteTo per (mode, dims); one public input in system, witness, verifying key and Solidity; deletion depth >= 32 refused, 31 builds; distinct = (seed, mode, dims) combinations")
